@@ -38,7 +38,7 @@ try:
     for l in open(out+'/notes.md'):
         if l.strip().startswith('#'): title=l.strip('# \n'); break
 except Exception: pass
-json.dump({"property":pid,"title":title,"files":files,"demo_tests":tests.split('|'),"validated_against":head,"source":"independent sub-agent, round 3 (property text and scratch worktree only)"},open(out+'/meta.json','w'),indent=1)
+json.dump({"property":pid,"title":title,"files":files,"demo_tests":tests.split('|'),"validated_against":head,"source":"independent sub-agent, round of the import (property text and scratch worktree only)"},open(out+'/meta.json','w'),indent=1)
 PY
     n=$((n+1))
   fi
